@@ -32,11 +32,11 @@ func (c17) Rule() string {
 }
 func (c17) Components() map[string]string {
 	return map[string]string{
-		"plugin.CLIPlugin, run, execCommander.Output, validate": "real",
-		"internal/io.LimitWriter":                                "real",
+		"plugin.CLIPlugin, run, execCommander.Output, validate":              "real",
+		"internal/io.LimitWriter":                                            "real",
 		"os/exec (Cmd.Start/Wait, pipes, copiers, context watch, WaitDelay)": "simexec model, calibrated against real /bin/sh children (setup and thorough tier)",
-		"plugin process":                                          "scripted simulator task",
-		"clock, deadlines":                                        "synctest bubble",
+		"plugin process":   "scripted simulator task",
+		"clock, deadlines": "synctest bubble",
 	}
 }
 func (c17) Assumptions() []string {
@@ -108,7 +108,7 @@ func (c17) Gen(r *rand.Rand, tier string, idx int) *core.Plan {
 	w["timing"] = int64(core.Pick(r, 0, 0, 0, 1, 2, 3, 3)) // 0 immediate 1 slow 2 never exits 3 descendant holds pipes
 	w["sleep"] = int64(core.Pick(r, time.Millisecond, 500*time.Millisecond, 5*time.Second, 2*time.Minute, 3*time.Hour))
 	w["hold"] = int64(core.Pick(r, time.Millisecond, 10*time.Second, 30*time.Minute, 2*time.Hour, 100*time.Hour))
-	w["holdExit"] = int64(r.IntN(2)) // descendant case: process exits at once (0) or after sleep (1)
+	w["holdExit"] = int64(r.IntN(2))           // descendant case: process exits at once (0) or after sleep (1)
 	w["ctx"] = int64(core.Pick(r, 0, 1, 1, 2)) // 0 none 1 deadline 2 cancel at instant
 	w["deadline"] = int64(core.Pick(r, 10*time.Millisecond, time.Second, time.Minute, 10*time.Minute))
 	w["cancelAt"] = int64(core.Pick(r, time.Duration(0), time.Millisecond, 700*time.Millisecond, 30*time.Second))
